@@ -491,6 +491,9 @@ func (b *builder) call(c *ssa.Call) *Expr {
 		} else if o, ok := sc.Object().(*types.Func); ok {
 			e.Ext = o
 		}
+	} else if g := funcVarOf(cc.Value); g != nil {
+		// call through a package-level function variable (e.g. sdk.NewIntFromUint64 = math.NewIntFromUint64)
+		e.Name = "var:" + globalName(g)
 	} else if _, isB := cc.Value.(*ssa.Builtin); !isB {
 		e.Args = append(e.Args, b.expr(cc.Value))
 	}
@@ -1314,3 +1317,132 @@ func (b *builder) counter(p *ssa.Phi) *Expr {
 
 // FieldName returns the name of field i of the (pointer to) struct type t.
 func FieldName(t types.Type, i int) string { return fieldName(t, i) }
+
+// funcVarOf: v is a load of a package-level variable of function type.
+func funcVarOf(v ssa.Value) *ssa.Global {
+	u, ok := v.(*ssa.UnOp)
+	if !ok || u.Op != token.MUL {
+		return nil
+	}
+	g, ok := u.X.(*ssa.Global)
+	if !ok {
+		return nil
+	}
+	if _, isFn := deref(g.Type()).Underlying().(*types.Signature); !isFn {
+		return nil
+	}
+	return g
+}
+
+// PathTuples resolves the results of a return instruction path by path: walking the CFG
+// backwards from the return, every result that is a phi or a load of a local is resolved
+// along each incoming path separately, so that the values of one tuple belong to the same
+// execution path. ok=false when the walk does not terminate within the bounds.
+func (w *World) PathTuples(ret *ssa.Return, maxPaths int) ([][]*Expr, bool) {
+	fn := ret.Parent()
+	b := w.builderFor(fn)
+	type pend struct {
+		phi   *ssa.Phi
+		alloc *ssa.Alloc
+		done  *Expr
+	}
+	start := make([]pend, len(ret.Results))
+	for i, v := range ret.Results {
+		switch x := v.(type) {
+		case *ssa.Phi:
+			start[i] = pend{phi: x}
+		case *ssa.UnOp:
+			if a, ok := x.X.(*ssa.Alloc); ok && x.Op == token.MUL && !b.rd.captured[a] {
+				start[i] = pend{alloc: a}
+			} else {
+				start[i] = pend{done: b.expr(v)}
+			}
+		default:
+			start[i] = pend{done: b.expr(v)}
+		}
+	}
+	var out [][]*Expr
+	ok := true
+	var walk func(blk *ssa.BasicBlock, from int, st []pend, depth int)
+	walk = func(blk *ssa.BasicBlock, from int, st []pend, depth int) {
+		if !ok {
+			return
+		}
+		if depth > 24 || len(out) > maxPaths {
+			ok = false
+			return
+		}
+		cur := append([]pend{}, st...)
+		// resolve loads whose defining store lies in this block
+		for i := range cur {
+			if cur[i].alloc == nil {
+				continue
+			}
+			for j := from - 1; j >= 0; j-- {
+				in := blk.Instrs[j]
+				if in == ssa.Instruction(cur[i].alloc) {
+					cur[i] = pend{done: &Expr{Op: "zero", Name: typeShort(deref(cur[i].alloc.Type()))}}
+					break
+				}
+				if s, isStore := in.(*ssa.Store); isStore && s.Addr == ssa.Value(cur[i].alloc) {
+					switch x := s.Val.(type) {
+					case *ssa.Phi:
+						cur[i] = pend{phi: x}
+					default:
+						cur[i] = pend{done: b.expr(s.Val)}
+					}
+					break
+				}
+			}
+		}
+		pending := false
+		for i := range cur {
+			if cur[i].done == nil {
+				// a phi defined in another block than this one cannot be split here: resolve as a whole
+				if cur[i].phi != nil && cur[i].phi.Block() != blk {
+					cur[i] = pend{done: b.expr(cur[i].phi)}
+					continue
+				}
+				pending = true
+			}
+		}
+		if !pending || len(blk.Preds) == 0 {
+			t := make([]*Expr, len(cur))
+			for i := range cur {
+				switch {
+				case cur[i].done != nil:
+					t[i] = cur[i].done
+				case cur[i].phi != nil:
+					t[i] = b.expr(cur[i].phi)
+				default:
+					t[i] = &Expr{Op: "zero", Name: "unset"}
+				}
+			}
+			out = append(out, t)
+			return
+		}
+		for k, p := range blk.Preds {
+			next := append([]pend{}, cur...)
+			for i := range next {
+				if next[i].done == nil && next[i].phi != nil {
+					e := next[i].phi.Edges[k]
+					switch x := e.(type) {
+					case *ssa.Phi:
+						next[i] = pend{phi: x}
+					case *ssa.UnOp:
+						if a, okA := x.X.(*ssa.Alloc); okA && x.Op == token.MUL && !b.rd.captured[a] {
+							next[i] = pend{alloc: a}
+						} else {
+							next[i] = pend{done: b.expr(e)}
+						}
+					default:
+						next[i] = pend{done: b.expr(e)}
+					}
+				}
+			}
+			walk(p, len(p.Instrs), next, depth+1)
+		}
+	}
+	walk(ret.Block(), InstrIndex(ret), start, 0)
+	return out, ok
+}
